@@ -304,15 +304,17 @@ def body_plan(doc: dict, man: dict, man_ep: dict, op: dict, tok: docs.Tok, rng: 
     return to_desc(pi, v), x
 
 
-def response_plan(doc: dict, man_ep: dict, op: dict, tok: docs.Tok, rng: random.Random, want: str):
+def response_plan(doc: dict, man_ep: dict, op: dict, tok: docs.Tok, rng: random.Random, want: str, overrides: dict | None = None):
     """A canned server response.  want: 'documented' | 'undocumented'."""
     comps = comps_of(doc)
     documented = {str(r["status"]): r for r in man_ep["responses"]}
     marker = [["x-verif-marker", f"m-{tok.next()}"]]
     if want == "undocumented" or not documented:
         st = rng.choice([s for s in (200, 201, 203, 301, 400, 403, 404, 418, 500, 502) if str(s) not in (op.get("responses") or {})] or [599])
-        body = json.dumps({"unexpected": tok.string()}).encode()
-        return {"status": st, "headers": marker + [["content-type", "application/json"]], "content": base64.b64encode(body).decode()}, {"documented": False, "status": st, "marker": marker[0][1]}
+        # whatever a proxy or another server may answer: JSON, nothing, text in another encoding, compressed bytes
+        body, ctype = rng.choice([(json.dumps({"unexpected": tok.string()}).encode(), "application/json"), (json.dumps({"unexpected": tok.string()}).encode(), "application/json"), (b"", "text/plain"),
+                                  (b"Erreur du serveur mandataire: caf\xe9 ferm\xe9 \xa0\xff", "text/html; charset=iso-8859-1"), (b"\x1f\x8b\x08\x00\xff\xfe\x80\x81binary", "application/octet-stream")])
+        return {"status": st, "headers": marker + [["content-type", ctype]], "content": base64.b64encode(body).decode()}, {"documented": False, "status": st, "marker": marker[0][1]}
     st = rng.choice(sorted(documented))
     mr = documented[st]
     rdoc = resolve_response(doc, (op.get("responses") or {}).get(st))
@@ -324,7 +326,7 @@ def response_plan(doc: dict, man_ep: dict, op: dict, tok: docs.Tok, rng: random.
     # the generator uses the first supported media type
     mt, media = None, None
     for k, v in content.items():
-        base = k.split(";")[0].strip()
+        base = (overrides or {}).get(k, k).split(";")[0].strip()
         if base.startswith("text/") or base in ("application/json", "application/octet-stream") or base.endswith("+json"):
             mt, media = k, v
             break
@@ -332,7 +334,7 @@ def response_plan(doc: dict, man_ep: dict, op: dict, tok: docs.Tok, rng: random.
         x["expect"] = "none"
         return {"status": int(st), "headers": marker, "content": ""}, x
     schema = (media or {}).get("schema")
-    base = mt.split(";")[0].strip()
+    base = (overrides or {}).get(mt, mt).split(";")[0].strip()  # the media type it behaves as; it is still served (and sent) as itself
     x["media"] = mt
     if schema is None:
         x["expect"] = "untyped"
@@ -383,7 +385,8 @@ def plan_ops(doc: dict, man: dict, args: dict) -> list:
         eff = effective_params(doc, op, item)
         mod = f"api.{ep['tag']}.{ep['module']}"
         body_doc = resolve_body(doc, op)
-        sup = lambda mt: (lambda b: b in ("application/json", "application/x-www-form-urlencoded", "multipart/form-data", "application/octet-stream") or b.endswith("+json"))(mt.split(";")[0].strip())  # noqa: E731
+        ovr = args.get("overrides") or {}
+        sup = lambda mt: (lambda b: b in ("application/json", "application/x-www-form-urlencoded", "multipart/form-data", "application/octet-stream") or b.endswith("+json"))(ovr.get(mt, mt).split(";")[0].strip())  # noqa: E731
         acts.append({"a": "endpoint_info", "module": mod, "x": {"path": path, "method": ep["method"], "security": bool(op.get("security")),
                                                                  "doc_params": sorted([n, l] for (n, l), p in eff.items() if isinstance(p.get("schema"), dict) or "schema" in p),
                                                                  "doc_media": sorted(mt for mt, m in ((body_doc or {}).get("content") or {}).items() if sup(mt) and isinstance(m, dict) and "schema" in m) if isinstance(body_doc, dict) else [],
@@ -440,10 +443,10 @@ def plan_ops(doc: dict, man: dict, args: dict) -> list:
                     continue
                 kwargs["body"], x["body"] = bp
             want = "undocumented" if (ci == 2 or not ep["responses"]) else "documented"
-            resp, x["response"] = response_plan(doc, ep, op, tok, rng, want)
+            resp, x["response"] = response_plan(doc, ep, op, tok, rng, want, overrides=args.get("overrides"))
             if resp is None:
                 continue
-            raise_flag = bool(ci % 2) if want == "undocumented" else rng.random() < 0.3
+            raise_flag = rng.random() < (0.5 if want == "undocumented" else 0.3)
             client = {"auth": bool(op.get("security")) or rng.random() < 0.2, "token": f"tok-{tok.next()}", "raise": raise_flag}
             if client["auth"] and rng.random() < 0.3:
                 client["prefix"] = rng.choice(["Token", "", "Basic"])
@@ -616,7 +619,7 @@ def plan_c13(doc: dict, man: dict, args: dict) -> list:
     eps = {e["name"]: e for e in man.get("endpoints") or []}
     for key, case in (args.get("cases") or {}).items():
         route = case["route"]
-        if route in ("direct", "ref", "allof", "allof_any_base", "shared_enum_name"):
+        if route in ("direct", "ref", "ref_nullable", "allof", "allof_any_base", "shared_enum_name"):
             ent = (man.get("refs") or {}).get(f"/components/schemas/{key}")
             if ent and ent["kind"] == "ModelProperty" and ent["cls"] in man["models"]:
                 acts.append({"a": "construct", "cls": ent["cls"], "kwargs": {}, "x": {"case": key}})
